@@ -843,9 +843,14 @@ func judgeFund(ctx *pbt.Ctx, c Case, want modelResult, tx *bt.Tx, lq *ref.FeeQuo
 	}
 
 	// ---- result class -----------------------------------------------------------------------
-	okClass := gotClass == want.class
+	// the statement fixes two results: success, and an insufficient-funds error once the supplier has
+	// reported exhaustion. Every other ending of the model (supplier error, a UTXO with a bad txid, an
+	// unsupported or missing spent script) must fail - funding cannot have succeeded - but with WHICH
+	// error is the library's choice (benign round 2: sentinels re-ordered, wrapped, renamed)
+	failed := func(cl string) bool { return cl != resOK && cl != resExhausted }
+	okClass := gotClass == want.class || (failed(want.class) && ferr != nil)
 	for _, a := range want.alts {
-		if gotClass == a {
+		if gotClass == a || (failed(a) && ferr != nil) {
 			okClass = true
 		}
 	}
